@@ -292,6 +292,166 @@ end M;
     return out
 
 
+O_NODER = ("aliases-noder", {"detect_aliases": True, "allow_derivative_aliases": False})
+O_ITER = ("aliases-iter", {"detect_aliases": True, "eliminate_constant_assignments": True, "iterative_simplification": True})
+O_EXPAND_NODER = ("expand-noder", {"expand_vectors": True, "detect_aliases": True, "allow_derivative_aliases": False})
+
+ALIAS_KINDS = {  # canonical partner of the eliminated algebraic variable a: (expression, category)
+    "state": "x", "der": "der(x)", "alg": "g", "input": "u", "param": "p", "const": "c", "delay": "delay(x, hi)",
+    "vec-der": "der(xv[2])", "vec-alg": "gv[1]",
+}
+ALIAS_FORMS = {  # spelling of the alias equation between a and its partner K: (text, sign)
+    "eq": "a = {K};", "neg": "a = -({K});", "rev": "{K} = a;", "sum0": "a + {K} = 0;", "diff0": "0 = {K} - a;", "negneg": "-a = -({K});",
+}
+QUICK_ALIAS_FORMS = ("eq", "neg")
+
+
+def alias_models(tier):
+    """{id: text}: an algebraic variable a aliased (with either sign, in several spellings) to a variable of
+    EVERY category that alias detection can make canonical - state, derivative of a state, algebraic
+    variable, input, parameter, constant, delay state, element of a vector state derivative / vector
+    algebraic variable - followed by a second alias b = +/-a and an output alias, so that alias groups of
+    size 2..4 with mixed signs exist.  a carries numeric bounds and b parameter-dependent ones (the merged
+    bounds become fmin/fmax expressions of the parameters)."""
+    out = {}
+    forms = ALIAS_FORMS if tier == "thorough" else {k: ALIAS_FORMS[k] for k in QUICK_ALIAS_FORMS}
+    for (kid, K), (fid, form), chain in itertools.product(ALIAS_KINDS.items(), forms.items(), ("pos", "neg")):
+        b_eq = "b = a;" if chain == "pos" else "b = -a;"
+        out[f"alias[{kid},{fid},{chain}]"] = f"""model M
+  parameter Real k = 0.5;
+  parameter Real lo;
+  parameter Real hi = 4;
+  parameter Real p(min = lo) = 2;
+  constant Real c = 3;
+  input Real u(min = -hi);
+  output Real o;
+  Real x(start = 1, min = -hi, max = hi);
+  Real xv[2](each start = 2);
+  Real g(max = 8);
+  Real gv[2](each min = -1);
+  Real a(min = 0, max = 10, nominal = 2);
+  Real b(min = lo, max = hi, start = p);
+  Real w;
+equation
+  der(x) = -k * x + u + g;
+  der(xv[1]) = -xv[1] + w;
+  der(xv[2]) = xv[1] - k * xv[2];
+  g = 2 * x + u * c + p;
+  gv[1] = x * xv[1] + 1;
+  gv[2] = gv[1] * k - u;
+  {form.format(K=K)}
+  {b_eq}
+  w = b + x * hi;
+  o = w;
+end M;
+"""
+    return out
+
+
+# ---- option sequences on one model folder -------------------------------------------------------
+SEQ_MODELS = {
+ "seq-chain": """function f
+  input Real x;
+  output Real y;
+algorithm
+  y := 2 * x + 1;
+end f;
+model M
+  parameter Real k = 0.5;
+  parameter Real q;
+  parameter Real r = 2 * k;
+  constant Real c = 3;
+  constant Real c2 = c + 1;
+  input Real u;
+  output Real y;
+  Real a;
+  Real b(max = q);
+  Real d;
+  Real v(nominal = 2);
+  Real w[2];
+  Real x(start = 1.0, min = -q);
+equation
+  a = 3.0;
+  b = a;
+  d = b + u;
+  y = d;
+  v = der(x);
+  der(x) = -k * x + d + r * c2 + f(w[2]);
+  for i in 1:2 loop
+    w[i] = i * x + c;
+  end for;
+end M;
+""",
+ "seq-params": """model M
+  parameter Real p1 = 2;
+  parameter Real p2 = 3 * p1;
+  parameter Real p3;
+  constant Real c1 = 1.5;
+  constant Real c2 = 2 * c1;
+  input Real u(fixed = true);
+  Real x(start = p1, max = p2 * p3);
+  Real e;
+  Real h(min = p1);
+  Real m;
+  Real z[3];
+  output Real o;
+equation
+  der(x) = -p2 * x + c2 * u + m;
+  e = c1;
+  h = e;
+  m = -h;
+  z[1] = x;
+  z[2] = 2 * z[1] + m;
+  z[3] = z[2] - z[1] * p3;
+  o = z[3];
+end M;
+""",
+}
+SEQ_BASE = {"eliminate_constant_assignments": True, "replace_constant_values": True, "detect_aliases": True}
+SEQ_TOGGLES = [  # (id, options added to / overriding SEQ_BASE); None removes the key
+    ("iter", {"iterative_simplification": True}),          # read by Model.simplify, NOT in the default option table
+    ("iter-off", {"iterative_simplification": False}),
+    ("stray", {"not_a_pymoca_option": 1}),
+    ("expand", {"expand_vectors": True}),
+    ("parexpr", {"replace_parameter_expressions": True}),
+    ("constexpr", {"replace_constant_expressions": True}),
+    ("pvals", {"replace_parameter_expressions": True, "replace_parameter_values": True}),
+    ("resolve", {"resolve_parameter_values": True}),
+    ("noder", {"allow_derivative_aliases": False}),
+    ("factor", {"factor_and_simplify_equations": True}),
+    ("elimexpr", {"eliminable_variable_expression": "^[dm]$"}),
+    ("noloops", {"unroll_loops": False}),
+    ("noinline", {"inline_functions": False}),
+    ("nobalance", {"check_balanced": False}),
+    ("verbose", {"verbose": True}),
+    ("nomtime", {"mtime_check": False}),
+    ("no-aliases", {"detect_aliases": False}),
+    ("no-elimconst", {"eliminate_constant_assignments": False}),
+    ("no-constvals", {"replace_constant_values": False}),
+]
+QUICK_SEQ = {"seq-chain": None,  # all toggles
+             "seq-params": ("iter", "expand", "parexpr", "pvals", "no-aliases", "stray")}
+
+
+def seq_items(tier):
+    """(model id, text, (name A, options A), (name B, options B)): the cache is written under A, then the
+    same folder is asked for B (A and B differ in ONE option, in both directions; thorough: also pairs)."""
+    items = []
+    for mid, text in SEQ_MODELS.items():
+        wanted = None if tier == "thorough" else QUICK_SEQ[mid]
+        togs = [(t, d) for t, d in SEQ_TOGGLES if wanted is None or t in wanted]
+        for tid, delta in togs:
+            a, b = ("base", dict(SEQ_BASE)), (f"base+{tid}", dict(SEQ_BASE, **delta))
+            items.append((mid, text, a, b))
+            items.append((mid, text, b, a))
+        if tier == "thorough":
+            for (t1, d1), (t2, d2) in itertools.combinations(togs, 2):
+                if set(d1) & set(d2):
+                    continue
+                items.append((mid, text, (f"base+{t1}", dict(SEQ_BASE, **d1)), (f"base+{t2}", dict(SEQ_BASE, **d2))))
+    return items
+
+
 def generated_items(tier):
     items = []
     thorough = tier == "thorough"
